@@ -595,13 +595,20 @@ class World:
                 self.bad("invoked-twice", tag, "%r" % (got,))
         else:
             # deliver: exactly the handlers attached at arrival, once each, in order
-            optional = None
-            if sname == "unsub-later":
-                optional = script[2]
+            # a handler that an EARLIER handler of the same dispatch has unsubscribed (the call has
+            # returned before its turn comes) is not invoked: "after a handler has been unsubscribed
+            # it is never invoked again" - the set fixed at arrival only shrinks
             want = L
+            if sname == "unsub-later" and any(j_ == script[2] and r_[0] == "ok" for (j_, r_, _a, _b, _c, _d) in self.inner):
+                want = [h for h in L if h != script[2]]
+                if script[2] in got:
+                    self.bad("invoked-after-unsubscribe", itag + "|same-dispatch", "handler %d was unsubscribed by "
+                             "handler %d earlier in this dispatch and invoked all the same: attached at arrival %r, "
+                             "invoked %r" % (script[2], script[1], L, got))
+                    got = [h for h in got if h != script[2]]
             if got != want:
-                want2 = [h for h in L if h != optional]
-                if optional is not None and got == want2:
+                optional = None
+                if False:
                     pass
                 else:
                     missing = [h for h in L if h not in got and h != optional]
